@@ -253,7 +253,9 @@ where
             // SAFETY: Since `entities` is already a `Batch`, then the canonical entities derived
             // from `entities` can safely be converted into a batch as well, since the components
             // will be of the same length.
-            unsafe { entities::Batch::new_unchecked(Registry::canonical(entities.entities)) };
+            unsafe {
+                entities::Batch::new_unchecked_with_len(Registry::canonical(entities.entities), length)
+            };
 
         // SAFETY: Since the archetype was obtained using the `identifier_buffer` created from the
         // entities `E`, then the entities are guaranteed to be made up of componpents identified
